@@ -406,6 +406,8 @@ class Client:
                         sock.close()
                         sock = None
                 else:
+                    # This address worked: forget the errors of earlier ones.
+                    error = None
                     break
 
             if error is not None:
